@@ -150,6 +150,29 @@ class Gen(object):
         r = self.rng
         return bytes(r.choice([r.randint(0, 255), r.randint(32, 126), r.choice(b"@-.09AFaf")]) for _ in range(n))
 
+    def structured_user(self):
+        """user parts made of numeric fields and separators, often NOT in canonical spelling (leading zeros, explicit
+        .0, a sign, a trailing newline): any codec shortcut that parses fields into integers and prints them back
+        alters these strings (device / agent jids, group ids, phone numbers)"""
+        r = self.rng
+
+        def d(lo, hi):
+            return self.digits(r.randint(lo, hi))
+
+        def z(x):
+            return (b"0" * r.randint(1, 2) + x) if r.random() < .5 else x
+        forms = [lambda: d(5, 15) + b":" + z(d(1, 3)),
+                 lambda: d(5, 15) + b"." + z(d(1, 3)) + b":" + z(d(1, 3)),
+                 lambda: d(5, 15) + b".0:" + d(1, 2),
+                 lambda: z(d(1, 3)) + b":" + z(d(1, 3)),
+                 lambda: d(8, 13) + b"-" + z(d(10, 10)),
+                 lambda: b"+" + d(5, 13),
+                 lambda: z(d(3, 10)),
+                 lambda: d(5, 12) + b":" + d(1, 3) + b"\n",
+                 lambda: d(5, 12) + b"_" + d(1, 2),
+                 lambda: d(5, 12) + b":" + d(1, 3) + b"." + d(1, 3)]
+        return r.choice(forms)()
+
     def length(self):
         r = self.rng
         c = r.random()
@@ -185,6 +208,8 @@ class Gen(object):
             c = r.random()
             if c < .6:
                 s = self.plain()
+            elif c < .68:
+                s = self.structured_user() + b"@" + r.choice([b"s.whatsapp.net", b"s.whatsapp.net", b"g.us", b"c.us", b"lid"])
             elif c < .9:
                 s = self.plain().replace(b"@", b"") + b"@" + r.choice([b"s.whatsapp.net", b"g.us", b"broadcast", self.plain()])
             elif c < .95:
